@@ -246,7 +246,7 @@ def run(ck):
     ck.coverage["relative_to_contracts"] = {"C12 (scan order) / C13 (range scan) / C11 (merge join, sort agg = hash variants)": ["useless-order", "merge-join", "sort-agg", "filter-scan", "filter-scan-1"]}
     # rules the translator cannot state have no theorem; their exact text is pinned, so that an edit
     # to one of them is at least reported (the differential run is then the only search)
-    pins = json.load(open(os.path.join(vlib.VERIF, "corpus", "C01", "untranslatable_rules.json")))
+    pins = json.load(open(os.path.join(vlib.VERIF, "checks", "c01_untranslatable_rules.json")))
     for r in other_rules:
         if r["name"] in pins and pins[r["name"]] != r["sig"]:
             ck.report("rule-text-changed:" + r["name"], "rule %s has no Lean statement (not translatable) and its definition changed: was `%s`, is `%s`" % (r["name"], pins[r["name"]], r["sig"]),
